@@ -79,7 +79,8 @@ def build_vertices(spec):
             if gi not in shared:
                 shared[gi] = mkpose(v["kind"], v["pose"])
             pose = shared[gi]
-        out.append(Vertex(v["id"], pose, fixed=bool(v.get("fixed", False))))
+        fx = v.get("fixed", False)
+        out.append(Vertex(v["id"], pose, fixed=fx if isinstance(fx, int) and not isinstance(fx, bool) else bool(fx)))
     return out
 
 
